@@ -355,6 +355,49 @@ def sibling_nested(ctx, i):
     ctx.case({"sibling": names}, True)
 
 
+def mapped_deep_interrupt(ctx, i):
+    """A pausing interrupt `depth` levels below a mapped nested graph (map_over node, or runner.map): the library
+    declares interrupts incompatible with map, so either the program is rejected, or - if it runs - the pause must
+    surface; a run that ends 'completed' although a handler returned None swallowed the pause."""
+    rng = ctx.rng
+    depth = rng.randint(1, 3)
+    prog = {"name": "lvl0", "nodes": [{"k": "int", "name": "ask", "params": [{"n": "x"}], "outs": ["y"], "handler": "pause", "async": rng.random() < 0.5}], "bind": {}}
+    for d in range(1, depth):
+        prog = {"name": f"lvl{d}", "nodes": [{"k": "sub", "name": f"w{d}", "prog": prog}], "bind": {}}
+    mid = {"name": "mid", "nodes": [{"k": "fn", "name": "prep", "params": [{"n": "q"}], "outs": ["x"]}, {"k": "sub", "name": "deep", "prog": prog}], "bind": {}}
+    items = [f"run:q{j}" for j in range(rng.randint(1, 3))]
+    via_node = rng.random() < 0.5
+    from hgmon.build import build_program
+    from hypergraph.exceptions import IncompatibleRunnerError
+    from hypergraph.graph.validation import GraphConfigError
+
+    if via_node:
+        top = {"name": "top", "nodes": [{"k": "sub", "name": "mid", "prog": mid, "map": {"over": ["q"], "mode": "zip", "err": "raise"}}], "bind": {}}
+    else:
+        top = mid
+    case = {"spec": top, "inputs": {"q": items}, "via_node": via_node, "depth": depth}
+    rt.reset_program()
+    try:
+        built = build_program(top)
+    except (GraphConfigError, IncompatibleRunnerError):
+        ctx.obs["mapped_deep_interrupt_cases"] += 1
+        ctx.obs["mapped_deep_interrupt_rejected"] += 1
+        ctx.case({"mapped_int": depth, "via": via_node, "rej": "build"}, True)
+        return
+    o = core.execute(built, {"q": items}, "async", **({} if via_node else {"map_over": ["q"]}))
+    asked = [k for k, v in o.rec.invocations().items() if k.endswith("/ask") and v] if o.rec is not None else []
+    ctx.obs["mapped_deep_interrupt_cases"] += 1
+    if o.status.startswith("raised:"):
+        ctx.obs["mapped_deep_interrupt_rejected"] += 1
+        if asked:
+            ctx.violation("C14:mapped-interrupt:ran-then-raised", f"depth {depth}: handler invoked ({asked}) although the program was rejected with {o.status}", case)
+    else:
+        statuses = [o.status] if o.status != "map" else [st for st, _, _ in o.values]
+        if asked and "paused" not in statuses:
+            ctx.violation("C14:mapped-interrupt:pause-swallowed", f"depth {depth} via {'map_over node' if via_node else 'runner.map'}: handlers {asked} returned None but the call ended {statuses} without any pause", case)
+    ctx.case({"mapped_int": depth, "via": via_node}, True)
+
+
 def run(ctx):
     n = 400 if ctx.tier == "quick" else 16000
     core.WARM_P = 0.0
@@ -363,7 +406,9 @@ def run(ctx):
         return
     for i in range(n):
         r = i % 6
-        if r == 4:
+        if i % 40 == 7:
+            mapped_deep_interrupt(ctx, i)
+        elif r == 4:
             nested_identity(ctx, i)
         elif r == 5:
             sibling_nested(ctx, i)
